@@ -5,7 +5,7 @@
    decision operators of Validators.
    One record per line of IOEnv.TRACE_FILE:  c (checker description), p (packet description, integ as a list),
    obs = [v |-> what the awaited call produced, calls |-> top-level members a union invoked].
-   The observed verdict must be the one of Validators as coded or, where a named deviation applies, the intended one.
+   The observed verdict must be exactly the one of Validators (no deviation is tolerated any more).
    A record's verdict is the set of failing clauses ({} = accepted):  "exp_<expected verdict>",
    "calls_<expected number>", "illformed" (the harness recorded a description it cannot have built). *)
 EXTENDS Validators, Json, IOUtils, TLCExt, TLC
@@ -20,7 +20,7 @@ Clauses(r) ==
   LET p == PktOf(r.p)
       o == Out(r.c, p)
   IN IF ~WellFormed(p) THEN {"illformed"}
-     ELSE (IF r.obs.v \notin {o.v, o.alt} THEN {"exp_" \o o.v} ELSE {})
+     ELSE (IF r.obs.v # o.v THEN {"exp_" \o o.v} ELSE {})
           \cup (IF o.calls # r.obs.calls THEN {"calls_" \o ToString(o.calls)} ELSE {})
 
 Init == tid \in 1..Len(Recs)
